@@ -215,7 +215,7 @@ def ops_for(spec, fmt, with_oob):
 
 
 DIRECTED = [
-    # the _refuted witnesses of Props/C10.v and the DESIGN section 5 probes
+    # regression inputs of the repaired findings D10, D17, D18 (a recurrence is a NEW violation) and the unpruned witnesses
     ({"shape": [6], "coords": [[1], [2], [3], [5]], "data": [-3, -2, 1, 1], "fill": 0}, [("unique_counts",), ("unique_values",)]),
     ({"shape": [1], "coords": [[0]], "data": [5], "fill": 0}, [("sort", -1, False), ("sort", 0, True)]),
     ({"shape": [0], "coords": [], "data": [], "fill": 0}, [("sort", -1, False)]),
